@@ -881,12 +881,12 @@ def afterHint (s : Sess) (c : Cmd) (o : Out) (h : Hint) : Sess :=
       (if h.trans = "stop" then { s with dbg := .live } else if h.trans = "exit" then { s with dbg := .exited } else s)
     else s
   -- a thread that panicked / a process that is gone answers nothing any more
-  let dead := match o with
+  let dead : Bool := match o with
     | .panic _ => true | .abort => true | .killed => true | .dropped => true
     | .pass => h.cls.startsWith "panic" || h.cls = "abort" || h.cls.startsWith "killed" || h.cls = "hang" || h.cls = "dropped"
     | .okThenPass => h.cls.startsWith "panic" || h.cls = "abort" || h.cls = "hang"
     | _ => false
-  if dead then { s with ended := true } else s
+  { s with ended := s.ended || dead }
 
 /-- one message of the `run` loop -/
 def stepMsg (q : Q) (s : Sess) (m : J) (h : Hint) : Sess × Out :=
